@@ -878,7 +878,33 @@ Varable failures: {var_failed}
             # lower edge of every new layer plus the upper edge of the last
             outf.VGLVLS = np.append(
                 nlayb[:, 0], nlayb[-1, 1]).view(np.ndarray)
+        if 'TSTEP' in kwds:
+            # time flags are dates and times, not numbers: the function is
+            # applied to the elapsed seconds and the flags are rebuilt
+            times = self.getTimes()
+            timef = PseudoNetCDFFile()
+            timef.createDimension('TSTEP', len(times))
+            timev = timef.createVariable('TSTEP', 'd', ('TSTEP',))
+            timev[:] = [(t - times[0]).total_seconds() for t in times]
+            newsecs = timef.applyAlongDimensions(
+                TSTEP=kwds['TSTEP']).variables['TSTEP'][:]
+            newtimes = [times[0] + datetime.timedelta(seconds=float(s))
+                        for s in np.ma.filled(newsecs, 0)]
+            outf.SDATE = int(newtimes[0].strftime('%Y%j'))
+            outf.STIME = int(newtimes[0].strftime('%H%M%S'))
+            if len(newtimes) > 1:
+                outf.TSTEP = int((datetime.datetime(1900, 1, 1, 0) +
+                                  (newtimes[1] - newtimes[0])
+                                  ).strftime('%H%M%S'))
+            if 'TFLAG' in outf.variables:
+                del outf.variables['TFLAG']
         outf.updatemeta()
+        if 'TSTEP' in kwds:
+            tflag = outf.variables['TFLAG']
+            tflag[:, :, 0] = np.array(
+                [int(t.strftime('%Y%j')) for t in newtimes])[:, None]
+            tflag[:, :, 1] = np.array(
+                [int(t.strftime('%H%M%S')) for t in newtimes])[:, None]
         return outf
 
     def eval(self, *args, **kwds):
